@@ -67,10 +67,13 @@ static std::vector<obs::PObs> decodeCopy(W& w, Decoder& d, const Bytes& f, bool 
                 out.push_back(obs::observe(*p));
         return out;
     }
-    uint8_t* copy = static_cast<uint8_t*>(malloc(f.size() ? f.size() : 1));
+    // flush against the end of its own heap block, at an address whose alignment varies with the frame length (length % 8)
+    const size_t off = f.size() % 8;
+    uint8_t* block = static_cast<uint8_t*>(malloc(f.size() + off ? f.size() + off : 1));
+    uint8_t* copy = block + off;
     memcpy(copy, f.data(), f.size());
     auto pk = d.decode(copy, f.size());
-    free(copy);
+    free(block);
     for (auto& p : pk)
     {
         if (!p)
@@ -526,13 +529,13 @@ constexpr int SYM_PER_EP = 30;
 constexpr int ND = 5;
 static const int kDKinds[ND] = {0, 2, 5, 6, 12};
 constexpr int EPLESS = 3 * SYM_PER_EP + ND;   // first endpoint-less symbol
-constexpr int NSYM = EPLESS + 3;
+constexpr int NSYM = EPLESS + 5;
 static const char* kSymName[SYM_PER_EP] = {"U", "UU", "F", "Ft", "F2", "I", "L", "Ib", "Lb", "Lv", "Lt", "It", "Z", "E", "O", "H", "UF", "P", "UI", "UL", "P1", "T0", "L0", "Z0", "Id", "Ld", "Ld0", "Sh", "Sl", "Ir"};
 
 static std::string symName(int sym)
 {
     if (sym >= EPLESS)
-        return sym == EPLESS ? "short5" : (sym == EPLESS + 1 ? "null" : "tecmp");
+        return sym == EPLESS ? "short5" : (sym == EPLESS + 1 ? "null" : (sym == EPLESS + 2 ? "tecmp" : (sym == EPLESS + 3 ? "tecmp-dev0" : "tecmp-dev1")));
     if (sym >= 3 * SYM_PER_EP)
         return std::string("D:") + kSymName[kDKinds[sym - 3 * SYM_PER_EP]];
     return std::string(1, kEp[sym / SYM_PER_EP].name) + ":" + kSymName[sym % SYM_PER_EP];
@@ -549,10 +552,14 @@ static Bytes symbolFrame(int sym, const ref::ReassemblyModel& m, bool& isNull, i
         isNull = true;
         return {};
     }
-    if (sym == EPLESS + 2)
+    if (sym >= EPLESS + 2)
     {
+        // well-formed TECMP CAN frames (they yield a packet): from a TECMP device whose id is no endpoint's, and from TECMP devices 0
+        // and 1 - the converted packets then carry (device 0, stream 0) = endpoint C resp. the device id of A and B, numbers from
+        // another number space that must never be used to address capture-module reassembly state
         ref::TecmpHdr h;
-        h.device = 0x43; h.msgType = ref::TM_DATA; h.dataType = ref::TD_CAN; h.ifid = 5; h.ts = 77;
+        h.device = sym == EPLESS + 2 ? 0x43 : (sym == EPLESS + 3 ? 0 : 1);
+        h.msgType = ref::TM_DATA; h.dataType = ref::TD_CAN; h.ifid = 5; h.ts = 77;
         return ref::tecmpFrame(h, ref::tecmpCanPayload(0x123, 4, {1, 2, 3, 4}, 3));
     }
     ep = sym / SYM_PER_EP;
